@@ -21,6 +21,7 @@ CONSTANTS
   Bug_ImmDropEarly = FALSE
   Bug_FlushDeepDuringCompaction = FALSE
   Bug_ExpandKeepsParents = FALSE
+  Bug_ExpandNoBoundary = FALSE
   Bug_SnapshotSwapsBounds = FALSE
   Bug_SeqFromManifestOnly = FALSE
   Bug_ReplaySkipsOlderLogs = FALSE
